@@ -497,90 +497,116 @@ def client_info_reader(ctx, report, rule):
 # ------------------------------------------------------------------ client info writers
 
 
+def _bool_keep(truth):
+    return {"otherwise", 1} if truth else {0}
+
+
 def client_info_writers(ctx, report, rule="CLIENT"):
+    """partial evaluation over build in {None, Some}: exactly one store, of
+    [name, version] resp. [name, version, build]"""
+    from kernel import assume
     cfg = ctx.config
     for path, helper, build_param in (("Enr::<K>::set_client_info", "insert", 4), ("builder::Builder::<K>::client_info", "add_value", 4)):
         f = fn_or_violate(ctx, report, rule, path)
         if f is None:
             continue
         an = ctx.an(f)
-        calls = typed_calls(ctx, f, (helper,))
         rows = {}
         problems = []
-        for c in calls:
-            if c["key"] != b"client":
-                problems.append("writes key %r" % c["key"])
-            cls = rlpclass.class_of_type(c["targs"][1])
-            if cls != ("LIST", ("UTF8",)):
-                problems.append("stores %s" % rlpclass.fmt(cls))
-            # which branch: condition on build
-            branch = None
-            extra = []
-            for d, cond, allowed, alll in an.constraints_at(c["bb"]):
-                cs = strip(cond)
+        for case in ("None", "Some"):
+            def pred(cond, names, case=case):
+                c = strip(cond)
                 neg = False
-                if cs.k == "unop" and cs.a[0] == "Not":
-                    neg, cs = True, strip(cs.a[1])
-                if cs.k == "call" and cs.a[0].name in ("is_none", "is_some") and cs.a[1] and strip(cs.a[1][0]).k == "param" and strip(cs.a[1][0]).a[0] == build_param:
-                    truth = ("otherwise" in allowed or 1 in allowed) and 0 not in allowed
+                while c.k == "unop" and c.a[0] == "Not":
+                    neg = not neg
+                    c = strip(c.a[1])
+                if c.k == "call" and c.a[0].name in ("is_none", "is_some") and c.a[1] and strip(c.a[1][0]).k == "param" and strip(c.a[1][0]).a[0] == build_param:
+                    truth = (case == "None") == (c.a[0].name == "is_none")
                     if neg:
                         truth = not truth
-                    none = truth if cs.a[0].name == "is_none" else not truth
-                    branch = "None" if none else "Some"
-                elif cs.k == "discr" and strip(cs.a[0]).k == "param" and strip(cs.a[0]).a[0] == build_param and len(allowed) == 1:
-                    branch = list(allowed)[0]
-                else:
-                    extra.append(short(cond, 80))
-            if extra:
-                problems.append("the %s branch also depends on %s" % (branch, extra))
-            # elements of the vec
-            elems = []
-            for x in c["args"][2].walk():
-                if x.k == "agg" and x.a[0] == "array":
-                    elems = [strip(x.a[1][k2]) for k2 in sorted(x.a[1], key=int)]
-            if not elems:
-                # `vec![..]` writes the array through a raw pointer into a fresh box:
-                # take the array literal built on this branch
-                others = [o["bb"] for o in calls if o is not c]
-                cands = []
-                for blk in f.blocks:
-                    if blk.cleanup or blk.idx not in an.cfg.succ:
-                        continue
-                    for i2, st in enumerate(blk.stmts):
-                        if st.kind == "assign" and st.rv.kind == "aggregate" and st.rv.j.get("agg") == "array":
-                            if an.cfg.reaches(blk.idx, c["bb"]) and not any(an.cfg.reaches(blk.idx, ob) for ob in others):
-                                cands.append(an.rvalue_expr(st.rv, blk.idx, i2))
-                if len(cands) == 1:
-                    x = cands[0]
-                    elems = [strip(x.a[1][k2]) for k2 in sorted(x.a[1], key=int)]
-            ids = []
-            for el in elems:
-                if el.k == "param":
-                    ids.append(el.a[0])
-                elif el.k == "call" and el.a[0].name in ("unwrap", "expect", "unwrap_or_default") and strip(el.a[1][0]).k == "param":
-                    ids.append(strip(el.a[1][0]).a[0])
-                elif el.k == "vfield" and strip(el.a[0]).k == "param":
-                    ids.append(strip(el.a[0]).a[0])
-                else:
-                    ids.append(short(el, 40))
-            rows[branch] = ids
-        want = {"None": [2, 3], "Some": [2, 3, 4]}
+                    return _bool_keep(truth)
+                if c.k == "discr" and names and strip(c.a[0]).k == "param" and strip(c.a[0]).a[0] == build_param:
+                    return {case}
+                return None
+            van = assume(an, pred)
+            calls = [c for c in typed_calls_an(ctx, f, van, (helper,))]
+            lists = []
+            for c in calls:
+                if c["key"] != b"client":
+                    problems.append("writes key %r" % c["key"])
+                cls = rlpclass.class_of_type(c["targs"][1])
+                if cls != ("LIST", ("UTF8",)):
+                    problems.append("stores %s" % rlpclass.fmt(cls))
+                elems = list_elements(f, van, c)
+                ids = []
+                for el in elems:
+                    if el.k == "param":
+                        ids.append(el.a[0])
+                    elif el.k == "call" and el.a[0].name in ("unwrap", "expect", "unwrap_or_default") and strip(el.a[1][0]).k == "param":
+                        ids.append(strip(el.a[1][0]).a[0])
+                    elif el.k == "vfield" and strip(el.a[0]).k == "param":
+                        ids.append(strip(el.a[0]).a[0])
+                    else:
+                        ids.append(short(el, 40))
+                lists.append(ids)
+            rows[case] = lists
+        want = {"None": [[2, 3]], "Some": [[2, 3, 4]]}
         ok = not problems and rows == want
         report.check(rule, f.name if "Builder" not in path else "Builder::client_info", ok,
                      "%s stores [name, version] when build is None and [name, version, build] for every Some(build)" % f.name,
-                     "%s: lists per branch %s (expected %s) %s" % (f.name, rows, want, "; ".join(problems)), fn=f.path, sp=f.span, config=cfg)
+                     "%s: stores per case %s (expected %s) %s" % (f.name, rows, want, "; ".join(problems)), fn=f.path, sp=f.span, config=cfg)
+
+
+def typed_calls_an(ctx, f, an, names):
+    """typed_calls restricted to the feasible blocks of a (pruned) analysis"""
+    out = []
+    for b, t in f.calls():
+        c = t.callee
+        if b.idx not in an.cfg.succ or c is None or c.name not in names or not c.local:
+            continue
+        idx = len(b.stmts)
+        args = [an.operand_expr(a, b.idx, idx) for a in t.args]
+        key = const_key(args[1]) if len(args) > 1 else None
+        out.append(dict(name=c.name, key=key, targs=[x["s"] for x in c.targs], args=args, bb=b.idx, sp=t.sp, term=t))
+    return out
+
+
+def list_elements(f, an, c):
+    """elements of the Vec literal passed as the value of a typed call"""
+    elems = []
+    for x in c["args"][2].walk():
+        if x.k == "agg" and x.a[0] == "array":
+            elems = [strip(x.a[1][k2]) for k2 in sorted(x.a[1], key=int)]
+    if elems:
+        return elems
+    # `vec![..]` writes the array through a raw pointer into a fresh box: take
+    # the array literal built on this path
+    cands = []
+    for blk in f.blocks:
+        if blk.cleanup or blk.idx not in an.cfg.succ:
+            continue
+        for i2, st in enumerate(blk.stmts):
+            if st.kind == "assign" and st.rv.kind == "aggregate" and st.rv.j.get("agg") == "array":
+                if an.cfg.reaches(blk.idx, c["bb"]):
+                    cands.append(an.rvalue_expr(st.rv, blk.idx, i2))
+    if len(cands) == 1:
+        x = cands[0]
+        return [strip(x.a[1][k2]) for k2 in sorted(x.a[1], key=int)]
+    return []
 
 
 # ------------------------------------------------------------------ set_socket
 
 
 def set_socket_rule(ctx, report, rule="SOCKET"):
+    """partial evaluation of set_socket over (address family, is_tcp)"""
+    from kernel import assume
+    from rules.typestate import is_pubkey_method
     cfg = ctx.config
     f = fn_or_violate(ctx, report, rule, "Enr::<K>::set_socket")
     if f is None:
         return
     an = ctx.an(f)
-    # which parameter is the flag / the socket
     flag_param = None
     sock_param = None
     for i, t in enumerate(f.inputs):
@@ -590,47 +616,61 @@ def set_socket_rule(ctx, report, rule="SOCKET"):
             sock_param = i + 1
     table = {}
     problems = []
-    for b, t in f.calls():
-        if not (t.callee and t.callee.name == "insert" and "BTreeMap" in t.callee.fn):
-            continue
-        kexpr = an.operand_expr(t.args[1], b.idx, len(b.stmts))
-        fam = None
-        # address family of this branch: discriminant of socket.ip() / of socket
-        for d, cond, allowed, alll in an.constraints_at(b.idx):
-            if cond.k == "discr" and len(allowed) == 1:
-                c = strip(cond.a[0])
-                if c.k == "call" and c.a[0].name == "ip" and "SocketAddr" in c.a[0].fn and strip(c.a[1][0]).k == "param" and strip(c.a[1][0]).a[0] == sock_param:
-                    fam = list(allowed)[0]
-                elif c.k == "param" and c.a[0] == sock_param:
-                    fam = list(allowed)[0]
-                elif c.k == "call":
-                    problems.append("the address family is decided on %s, not on the socket's own address" % short(c, 100))
-        keys = key_alternatives(an, kexpr, flag_param)
-        if keys is None:
-            # the public-key entry
-            continue
-        v = value_is_rlp_of(an, t, 2)
-        for flagval, kb in keys:
-            for fv in ([0, 1] if flagval is None else [flagval]):
-                for fm in (["V4", "V6"] if fam is None else [fam]):
-                    table.setdefault((fm, fv), set()).add(kb)
-        # value classes
-        if v["kind"] == "rlp":
-            cls = rlpclass.class_of_type(v["ty"])
-            val = strip(v["value"])
-            for flagval, kb in keys:
+
+    def is_family(c):
+        inner = strip(c.a[0])
+        if inner.k == "param" and inner.a[0] == sock_param:
+            return True
+        return inner.k == "call" and inner.a[0].name == "ip" and "SocketAddr" in inner.a[0].fn and strip(inner.a[1][0]).k == "param" and strip(inner.a[1][0]).a[0] == sock_param
+
+    # any V4/V6 decision must be taken on the socket's own address
+    for n in an.cfg.nodes:
+        info = an.switch_info(n)
+        if info and info[0].k == "discr" and info[3] and set(info[3].values()) == {"V4", "V6"} and not is_family(info[0]):
+            problems.append("an address-family decision is taken on %s, not on the socket's own address" % short(info[0].a[0], 100))
+    for fam in ("V4", "V6"):
+        for fv in (0, 1):
+            def pred(cond, names, fam=fam, fv=fv):
+                c = strip(cond)
+                neg = False
+                while c.k == "unop" and c.a[0] == "Not":
+                    neg = not neg
+                    c = strip(c.a[1])
+                if c.k == "discr" and names and is_family(c):
+                    return {fam}
+                if c.k == "param" and c.a[0] == flag_param:
+                    return _bool_keep(bool(fv) != neg)
+                return None
+            van = assume(an, pred)
+            keys = set()
+            for b, t in f.calls():
+                if b.idx not in van.cfg.succ or not (t.callee and t.callee.name == "insert" and "BTreeMap" in t.callee.fn):
+                    continue
+                kexpr = van.operand_expr(t.args[1], b.idx, len(b.stmts))
+                kb = const_key(kexpr)
+                if kb is None:
+                    if is_pubkey_method(kexpr, "enr_key") is not None:
+                        continue
+                    problems.append("(%s, is_tcp=%d): a key that is not constant on this path: %s" % (fam, fv, short(kexpr, 100)))
+                    continue
+                keys.add(kb)
+                v = value_is_rlp_of(van, t, 2)
                 want = {b"ip": ("BYTES", 4), b"ip6": ("BYTES", 16)}.get(kb, U16)
+                if v["kind"] != "rlp":
+                    problems.append("(%s, is_tcp=%d): the value stored under %r is not one RLP-encoded value (%s)" % (fam, fv, kb, v.get("why") or v.get("kind")))
+                    continue
+                cls = rlpclass.class_of_type(v["ty"])
+                val = strip(v["value"])
                 if cls != want:
-                    problems.append("key %r is stored as %s" % (kb, rlpclass.fmt(cls)))
+                    problems.append("(%s, is_tcp=%d): key %r is stored as %s" % (fam, fv, kb, rlpclass.fmt(cls)))
                 if want == U16 and not (val.k == "call" and val.a[0].name == "port" and strip(val.a[1][0]).k == "param"):
-                    problems.append("port value is %s" % short(val, 80))
+                    problems.append("(%s, is_tcp=%d): port value is %s" % (fam, fv, short(val, 80)))
                 if want[0] == "BYTES" and not (val.k == "vfield" and val.a[1] == fam):
-                    problems.append("address value is %s" % short(val, 80))
-        else:
-            problems.append("a value is stored that is not an RLP encoding: %s" % v.get("kind"))
+                    problems.append("(%s, is_tcp=%d): address value is %s" % (fam, fv, short(val, 80)))
+            table[(fam, fv)] = keys
     ok = table == SOCKET_TABLE and not problems
     report.check(rule, "set_socket/table", ok, "set_socket writes exactly {ip,tcp}/{ip,udp}/{ip6,tcp6}/{ip6,udp6} (plus the signer's key) by (family, is_tcp)",
-                 "set_socket writes %s; expected %s; %s" % ({k: sorted(v) for k, v in sorted(table.items())}, {k: sorted(v) for k, v in sorted(SOCKET_TABLE.items())}, "; ".join(problems)),
+                 "set_socket writes %s; expected %s; %s" % ({k: sorted(v) for k, v in sorted(table.items())}, {k: sorted(v) for k, v in sorted(SOCKET_TABLE.items())}, "; ".join(sorted(set(problems)))),
                  fn=f.path, sp=f.span, config=cfg)
     for path, flag in SOCKET_SETTERS.items():
         g = fn_or_violate(ctx, report, rule, path)
